@@ -14,6 +14,7 @@ import (
 	"time"
 
 	"verifsim/core"
+	"verifsim/refkrb/der"
 	"verifsim/refkrb/rcrypto"
 	"verifsim/refkrb/rk"
 )
@@ -64,6 +65,11 @@ type Policy struct {
 	// (RFC 4120 5.2.7.5: they MAY be sent in the reply).
 	TerseASRep      bool `json:"terse_asrep,omitempty"`
 	TerseErrors     bool `json:"terse_errors,omitempty"`
+	// FASTNegotiation: the KDC takes part in the RFC 6806 section 11 negotiation, as MIT and Active
+	// Directory KDCs do: when the AS-REQ carries PA-REQ-ENC-PA-REP the reply has the enc-pa-rep flag
+	// and, sealed in its encrypted part, a checksum over the request under the reply key (key usage
+	// 56) together with an (empty) PA-FX-FAST
+	FASTNegotiation bool `json:"fast_negotiation,omitempty"`
 	// ErrorSName: what the (mandatory) sname of a KRB-ERROR holds.  "" = the service the request
 	// names (MIT); "empty" = a name without components, which is what Heimdal writes for errors it
 	// raises without having a server principal at hand (RESPONSE_TOO_BIG among them); "krbtgt" = the
@@ -752,6 +758,45 @@ func (k *KDC) issue(a issueArgs) []byte {
 		st := a.start
 		ep.StartTime = &st
 	}
+	if a.kind == "as" && k.Policy.FASTNegotiation && a.req != nil && a.rec != nil {
+		asked := false
+		for _, pa := range a.req.PAData {
+			asked = asked || pa.Type == rk.PAReqEncPARep
+		}
+		if asked {
+			et := int(a.replyKey.Etype)
+			if ck, err := rcrypto.Checksum(et, a.replyKey.Value, 56, a.rec.Raw); err == nil {
+				ckType := int64(rcrypto.ChecksumType(et))
+				for _, pt := range a.pt {
+					switch pt.Kind {
+					case "encpa-bad-checksum":
+						ck = append([]byte{}, ck...)
+						ck[len(ck)/2] ^= 0x40
+					case "encpa-short-checksum":
+						ck = ck[:1]
+					case "encpa-unknown-cksumtype":
+						ckType = 0x7fff
+					}
+				}
+				ep.Flags |= rk.Bit(15) // enc-pa-rep
+				ep.EncPA = []rk.PAData{
+					{Type: rk.PAReqEncPARep, Value: der.Seq(der.Ctx(0, der.Int(ckType)), der.Ctx(1, der.OctetString(ck)))},
+					{Type: 136, Value: []byte{}},
+				}
+				for _, pt := range a.pt {
+					switch pt.Kind {
+					case "encpa-no-fast":
+						ep.EncPA = ep.EncPA[:1]
+					case "encpa-garbage":
+						ep.EncPA[0].Value = []byte{0x30, 0x84, 0xff, 0xff, 0xff, 0xff}
+					case "encpa-empty-value":
+						ep.EncPA[0].Value = []byte{}
+					}
+				}
+				a.rec.Notes = append(a.rec.Notes, "fast-negotiation-answered")
+			}
+		}
+	}
 	rep := rk.KDCRep{MsgType: a.msgType, PAData: a.padata, CRealm: a.crealm, CName: a.cname, Ticket: tkt}
 	replyKey, usage, encTag := a.replyKey, a.replyUsage, a.encTag
 	// ---- perturbations of the reply (C09).  The issue log records the honest issue.
@@ -817,7 +862,7 @@ func (k *KDC) issue(a issueArgs) []byte {
 		case "key-of-earlier-s2kparams":
 			// the reply is sealed under the key the account had before it was re-keyed (same password
 			// and salt, other string-to-key parameters), while the hints name the current parameters
-			if p := k.DB[a.cname.String()]; p != nil {
+			if p := k.DB[a.cname.String()]; p != nil && a.kind == "as" {
 				if ek, ok := p.Earlier[int(replyKey.Etype)]; ok {
 					replyKey = ek.Key
 				}
